@@ -179,6 +179,10 @@ def run(chk: Check):
     macros.rule_m3(chk, ix, ir)
     rule_m4(chk, ix, tr.interp)
     macros.rule_m5(chk, ix)
+    # macro text is the concatenation of token texts: string tokens must carry their full source text (C08 L2)
+    from .c08 import rule_l1, rule_l2
+    rule_l1(chk, ix)
+    rule_l2(chk, ix)
     chk.floor("M1-must-append", 6)
     chk.floor("M2-delimiter-tables", 4)
     chk.floor("M3-flag-typestate", 12)
